@@ -33,6 +33,9 @@ def plan(ctx):
     for op in ('+', '-', '*', '/', '**', 'neg', '+=', '-=', '*=', '/='):
         obs.append(Obligation(f"digits.operator.{op}", "xh", "c04", "operator_digits", param={"op": op}, timeout=T * 2, bounds=DP,
                               desc=f"real operator {op} on real Decimals: digit bound; context untouched"))
+    obs.append(Obligation("digits.power_overflow", "xh", "c04", "power_overflow", timeout=T * 2,
+                          bounds="host int bases from 6 values, exponents 2.1 / 3.4 / 4.0 million (result beyond 1E+999999); operator or compound form (finite domain, native)",
+                          desc="a power of host ints beyond the decimal range raises an arithmetic error; no exact big integer is produced"))
     from sqv.harness import c04 as h
     for i, text in enumerate(h.TEXTS):
         obs.append(Obligation(f"text.t{i}", "xh", "c04", "text_digits", param={"t": i}, timeout=T * 2,
